@@ -35,6 +35,7 @@ Definition L_upgrade_outer := inline_all lib0 (cl fn_upgrade_outer upgrade_outer
 Definition lib1 := ("upgrade_outer", L_upgrade_outer) :: lib0.
 Definition L_listener_go := inline_all lib1 (cl fn_listener_go listener_go).
 Definition L_gated_accept := cl fn_gated_accept gated_accept.
+Definition L_listener_accept := cl fn_listener_accept listener_accept.
 Definition L_tcp_dial_scope := inline_all lib1 (cl fn_tcp_dial_scope tcp_dial_scope).
 Definition lib2 := ("tcp_dial_scope", L_tcp_dial_scope) :: lib1.
 Definition L_tcp_dial := inline_all lib2 (cl fn_tcp_dial tcp_dial).
@@ -62,7 +63,8 @@ Definition entries : list (string * bool * st * list (list aev)) :=
    ("Conn.NewStream", true, st0, L_conn_newstream);
    ("Conn.start accept-loop iteration", false, st0, L_conn_start_accept);
    ("Conn.start stream goroutine", false, st_stream, L_conn_start_handle);
-   ("BasicHost.NewStream", true, st0, L_host_newstream)].
+   ("BasicHost.NewStream", true, st0, L_host_newstream);
+   ("listener.Accept iteration", true, st0, L_listener_accept)].
 
 Definition entry_ok (e : string * bool * st * list (list aev)) : bool :=
   let '(_, vr, init, ps) := e in forallb (path_ok vr init) ps.
